@@ -205,6 +205,35 @@ func (g *Gen) descFor(repo string, present bool, media string) ocispec.Descripto
 	return g.decorate(ocispec.Descriptor{MediaType: media, Digest: digest.Digest(Sha(c)), Size: int64(len(c))})
 }
 
+// nearValid turns, now and then, a well-formed manifest document into a neighbour of it: bytes
+// after the closing brace (a complete document followed by something - what a streaming decoder
+// would not notice), surrounding white space (still valid JSON), a byte-order mark, a
+// duplicated key, a truncation by one byte.  Whether the result decodes is for encoding/json to
+// say (the oracle table), not for the generator.
+func (g *Gen) nearValid(b []byte) []byte {
+	if g.R.Intn(8) != 0 {
+		return b
+	}
+	switch g.R.Intn(8) {
+	case 0:
+		return append(append([]byte{}, b...), '}')
+	case 1:
+		return append(append([]byte{}, b...), []byte(" trailing")...)
+	case 2:
+		return append(append([]byte{}, b...), []byte("\n{}")...)
+	case 3:
+		return append(append([]byte{}, b...), b...)
+	case 4:
+		return append([]byte(" \n\t"), append(append([]byte{}, b...), []byte(" \n")...)...)
+	case 5:
+		return append([]byte("\xef\xbb\xbf"), b...)
+	case 6:
+		return append(append([]byte{}, b[:len(b)-1]...), []byte(`,"schemaVersion":2}`)...)
+	default:
+		return append([]byte{}, b[:len(b)-1]...)
+	}
+}
+
 // decorate gives a descriptor, now and then, the optional members of the image-spec descriptor
 // (urls, annotations, platform, artifactType, embedded data): legal, rarely seen, and none of
 // them changes what the descriptor refers to.
@@ -264,7 +293,7 @@ func (g *Gen) manifestContent(repo string) (content []byte, media string) {
 		}
 		g.maybeSubject(repo, &m.Subject)
 		b, _ := json.Marshal(m)
-		return b, ocispec.MediaTypeImageManifest
+		return g.nearValid(b), ocispec.MediaTypeImageManifest
 	case p < 17: // index
 		ix := ocispec.Index{MediaType: ocispec.MediaTypeImageIndex}
 		ix.SchemaVersion = 2
@@ -286,7 +315,7 @@ func (g *Gen) manifestContent(repo string) (content []byte, media string) {
 		}
 		g.maybeSubject(repo, &ix.Subject)
 		b, _ := json.Marshal(ix)
-		return b, ocispec.MediaTypeImageIndex
+		return g.nearValid(b), ocispec.MediaTypeImageIndex
 	case p == 17: // malformed JSON under an OCI media type
 		return []byte(`{"layers": 5`), []string{ocispec.MediaTypeImageManifest, ocispec.MediaTypeImageIndex}[g.R.Intn(2)]
 	case p == 18: // JSON valid for one type and a type error for the other
